@@ -201,3 +201,37 @@ def no_history(rep, model, roots, rule='NO-HISTORY'):
         rep.violation(rule, f'{fn.name}:{c}', f'{fn.path}:{ln} {fn.name}', expected='no write to module-level state on the analysis path',
                       found=f'{c}: state that survives the call; a later call with the same arguments can return something else', key=f'{rule}@{fn.mod}:{fn.name}:{c}')
     rep.ok(rule, 'reachable functions', '-', found=f'{len(qs)} functions reachable from {", ".join(roots)} scanned', nontrivial=True)
+
+
+_NONE_FEK = {}
+
+
+def same_extrema_options(model, got, given):
+    """is ``got`` (what a caller hands compute_shape_features as find_extrema_kwargs) the caller's own ``given`` value, as far as the segmentation can tell?  True when it is
+    ``given`` itself, or ``given`` with None replaced by exactly what compute_shape_features itself substitutes for None (read off its call into compute_cyclepoints, with the
+    documented n_cycles default): resolving the default one level earlier changes nothing downstream"""
+    from .. import terms as T, engine as E
+    from ..terms import NONE
+    if got == given:
+        return True
+    key = id(model)
+    if key not in _NONE_FEK:
+        d0 = None
+        try:
+            f = model.find('compute_shape_features')
+            r, ctx = E.run(model, f.qual, {'find_extrema_kwargs': NONE}, overrides=E.CYCLEPOINT_ABS, no_inline=('compute_cyclepoints',))
+            evs = [e for e in E.calls_to(ctx, 'compute_cyclepoints') if e['kind'] == 'pkgcall']
+            if len(evs) == 1:
+                cp = model.find('compute_cyclepoints')
+                kw = evs[0]['bound'].get(cp.kwarg) if cp.kwarg else None
+                if kw is not None and kw[0] == 'dict':
+                    d0 = kw
+        except Exception:
+            d0 = None
+        _NONE_FEK[key] = d0
+    d0 = _NONE_FEK[key]
+    if d0 is None:
+        return False
+    if given == NONE:
+        return got == d0
+    return got == T.gamma(T.cmp_('Is', NONE, given), d0, given) or got == T.gamma(T.cmp_('Is', given, NONE), d0, given)
